@@ -100,6 +100,7 @@ Inductive effect :=
   | EInvalidateExpert (e : nat)
   | ESubscribe (o : oid) (hid : Z)        (* observer.subscribe(<handler that only logs>) from inside a closure *)
   | EUnsubscribe (o : oid) (tok : Z)      (* observer.unsubscribe(token number tok of that observer) *)
+  | ESetMaxHeight (n : Z)             (* state.set_max_height_allowed(n) from inside a closure *)
   | EStabilise                        (* nested stabilise: misuse *)
   | EPanic.                           (* panic unconditionally *)
 
